@@ -2206,7 +2206,7 @@ mmx_rule_swapwl_ssse3 (OrcCompiler *p, void *user, OrcInstruction *insn)
   if (tmp != ORC_REG_INVALID) {
     orc_mmx_emit_pshufb (p, tmp, dest);
   } else {
-    mmx_rule_swapl (p, user, insn);
+    mmx_rule_swapwl (p, user, insn);
   }
 }
 
